@@ -572,12 +572,15 @@ func (a *array) getLen() uintptr {
 }
 
 func (a *array) next(i int64) (next int64, v Value, ok bool) {
-	ok = a != nil && 0 <= i && i <= int64(a.len)
+	// Any index of the array is a valid starting point, not just the ones up
+	// to a.len: clearing the last fields during a traversal lowers a.len
+	// below the key the traversal continues from.
+	ok = a != nil && 0 <= i && i <= int64(len(a.values))
 	if !ok {
 		return
 	}
 	for {
-		if i == int64(a.len) {
+		if i >= int64(a.len) {
 			return
 		}
 		v = a.values[i]
